@@ -27,6 +27,7 @@ def expected32(matrix):
 class C01(Property):
     ID = "C01"
     SESSIONS = ["s0", "s1"]
+    RUNS = {"quick": (6000, 6000), "thorough": (150000, 150000)}
 
     def config(self, rng, tier, faulty):
         big = tier == "thorough"
